@@ -348,11 +348,52 @@ def generate_lib_rs():
         rm(out), rm(tst)
 
 
+def second_generation_in_one_process():
+    """The property also covers evolved metamodels: generate for the committed model and then, in the
+    same interpreter, for an evolved model (bases and mixins gain properties, a new mixin appears) and
+    check the relation on the *second* output - anything the plugin remembers from the first run shows."""
+    import copy
+    import logging
+    from .c16 import evolve_for_history
+    impl.setup_paths()
+    model = impl.generator_module("generator.model")
+    plugin = impl.generator_module("generator.plugins.rust")
+    base = docs.committed()
+    evolved = evolve_for_history(docs.without(base, "textDocument/moniker")[0])
+    out = scratch("lspverif-c07b-")
+    logging.disable(logging.CRITICAL)
+    try:
+        for i, d in enumerate((base, evolved)):
+            o, t = os.path.join(out, "o%d" % i), os.path.join(out, "t%d" % i)
+            os.makedirs(o), os.makedirs(t)
+            plugin.generate(model.create_lsp_model([copy.deepcopy(d)]), o, t)
+        p = os.path.join(out, "o1", "lsprotocol", "src", "lib.rs")
+        f = rustfmt(p)
+        if f.returncode != 0:
+            return evolved, None, "rustfmt rejects the source generated for the evolved model in the second run: %s" % f.stderr[-200:]
+        return evolved, open(p, encoding="utf-8").read(), None
+    except Exception as e:  # noqa: BLE001
+        return evolved, None, "rust plugin fails on the second (evolved) model in one process: %s: %s" % (type(e).__name__, str(e)[:200])
+    finally:
+        logging.disable(logging.NOTSET)
+        rm(out)
+
+
 def run(ctx):
     res = Result()
     doc = docs.committed()
     total = {}
     sources = []
+    ev_doc, ev_src, ev_err = second_generation_in_one_process()
+    if ev_err:
+        res.add(Violation(PROP, "plugin", "rust:second-run", ev_err, {"engine": "BISIM", "input": None}))
+    else:
+        vs, stats = bisim(ev_doc, ev_src)
+        for v in vs:
+            v.replay["source"] = "second generation in one process (evolved model)"
+            v.kind = v.kind
+            res.add(Violation(PROP, v.kind, v.site, "second generation in the same process, evolved model: " + v.what, v.replay, extra="second-run"))
+        total["second_run_facets"] = stats.get("facets", 0)
     src, err = generate_lib_rs()
     if err:
         res.add(Violation(PROP, "plugin", "rust", err, {"engine": "BISIM", "input": None}))
